@@ -85,6 +85,100 @@ pub fn pl3_new_message(
 //@end
 }
 
+// PL3c — a FileInfo marks its source as "FileInfo received" (true), whatever the result it carries; pending messages untouched.
+// (The wait condition PL2 keeps waiting while the tracking map is non-empty; the map is cleared once every entry is true, PL3e.)
+#[verifier::external_body]
+pub struct FileProcessingResultBlockZero { _p: u8 }
+impl FileProcessingResultBlockZero {
+    #[verifier::external_body]
+    pub fn is_ok(&self) -> bool { unimplemented!() }
+    #[verifier::external_body]
+    pub fn is_stub(&self) -> bool { unimplemented!() }
+}
+pub fn pl3c_file_info(
+    pathid: PathId,
+    dt_opt: DateTimeLOpt,
+    file_processing_result: FileProcessingResultBlockZero,
+    map_pathid_modified_time: &mut HashMap<PathId, DateTimeLOpt>,
+    map_pathid_file_processing_result: &mut HashMap<PathId, FileProcessingResultBlockZero>,
+    map_pathid_received_fileinfo: &mut HashMap<PathId, bool>,
+    map_pathid_datum: &mut MapPathIdDatum,
+    set_pathid: &mut SetPathId,
+    disconnect: &mut Vec<PathId>,
+    fileprocessing_not_okay_in: usize,
+    count_since_in: usize,
+) -> (r: (usize, usize))
+    requires fileprocessing_not_okay_in < usize::MAX
+    ensures
+        // C06: the source counts as "FileInfo received" -- also when the file could not be processed
+        final(map_pathid_received_fileinfo)@ == old(map_pathid_received_fileinfo)@.insert(pathid, true),
+        final(map_pathid_datum)@ == old(map_pathid_datum)@,
+        final(set_pathid)@ == old(set_pathid)@,
+        final(disconnect)@ == old(disconnect)@,
+{
+    proof { broadcast use group_btree_axioms; broadcast use vstd::std_specs::hash::group_hash_axioms; }
+    let mut _fileprocessing_not_okay: usize = fileprocessing_not_okay_in;
+    let mut _count_since_received_fileinfo: usize = count_since_in;
+//@cut slice path=src/bin/s4.rs fn=processing_loop anchor="ChanDatum::FileInfo(dt_opt, file_processing_result) =>" take=arm label=PL3c
+//@end
+    (_fileprocessing_not_okay, _count_since_received_fileinfo)
+}
+
+// PL3d — a FileSummary (the last datum of a worker) marks its source for disconnection; pending messages untouched
+#[verifier::external_body]
+pub struct Summary { _p: u8 }
+#[verifier::external_body]
+pub struct MapPathIdSummary { _p: u8 }
+#[verifier::external_body]
+pub fn summary_update(pathid: &PathId, summary: Summary, map_pathid_summary: &mut MapPathIdSummary) { unimplemented!() }
+#[verifier::external_body]
+pub fn verif_fileok() -> (r: &'static FileProcessingResultBlockZero) { unimplemented!() }
+pub fn pl3d_file_summary(
+    pathid: PathId,
+    summary_opt: Option<Summary>,
+    file_processing_result: FileProcessingResultBlockZero,
+    mut map_pathid_summary: MapPathIdSummary,
+    map_pathid_file_processing_result: &mut HashMap<PathId, FileProcessingResultBlockZero>,
+    map_pathid_received_fileinfo: &mut HashMap<PathId, bool>,
+    map_pathid_datum: &mut MapPathIdDatum,
+    set_pathid: &mut SetPathId,
+    disconnect: &mut Vec<PathId>,
+    fileprocessing_not_okay_in: usize,
+) -> (r: usize)
+    requires fileprocessing_not_okay_in < usize::MAX
+    ensures
+        final(disconnect)@ == old(disconnect)@.push(pathid),
+        final(map_pathid_datum)@ == old(map_pathid_datum)@,
+        final(set_pathid)@ == old(set_pathid)@,
+        final(map_pathid_received_fileinfo)@ == old(map_pathid_received_fileinfo)@,
+{
+    proof { broadcast use group_btree_axioms; broadcast use vstd::std_specs::hash::group_hash_axioms; }
+    let mut _fileprocessing_not_okay: usize = fileprocessing_not_okay_in;
+//@cut slice path=src/bin/s4.rs fn=processing_loop anchor="ChanDatum::FileSummary(summary_opt, file_processing_result) =>" take=arm label=PL3d
+//@replace "&FILEOK" "verif_fileok()"
+//@end
+    _fileprocessing_not_okay
+}
+
+// PL3e — the tracking map is cleared exactly when it is non-empty and every entry is true
+#[verifier::external_body]
+pub fn verif_all_true(m: &HashMap<PathId, bool>) -> (r: bool)
+    ensures r == (forall|k: PathId| #[trigger] m@.contains_key(k) ==> m@[k] == true)
+{ unimplemented!() }
+#[verifier::external_body]
+pub fn verif_any(m: &HashMap<PathId, bool>) -> (r: bool) { unimplemented!() }
+pub fn pl3e_gate(map_pathid_received_fileinfo: &HashMap<PathId, bool>) -> (r: bool)
+    ensures r == (map_pathid_received_fileinfo@.len() != 0 && forall|k: PathId| #[trigger] map_pathid_received_fileinfo@.contains_key(k) ==> map_pathid_received_fileinfo@[k] == true)
+{
+    proof { broadcast use vstd::std_specs::hash::group_hash_axioms; }
+    let r =
+//@cut slice path=src/bin/s4.rs fn=processing_loop anchor="if !map_pathid_received_fileinfo.is_empty()" k=2 take=cond label=PL3e
+//@replace_chain "map_pathid_received_fileinfo.iter()" when="map_pathid_received_fileinfo.iter().all(|(_, v)| v == &true)" then="verif_all_true(&map_pathid_received_fileinfo)" else="verif_any(&map_pathid_received_fileinfo)"
+//@end
+    ;
+    r
+}
+
 // PL3b — a closed channel (RecvError) only marks the source for disconnection; pending messages are untouched
 pub fn pl3b_recv_error(
     pathid: PathId,
